@@ -22,7 +22,7 @@ ASSUMPTIONS = ["finite state: the symbolic variables are event kinds/groups/outc
                "(a) pre-state is arbitrary subject to the invariant 'a pending request implies an in-flight task' (re-established by every step, checked)",
                "(b) events: request for group g; completion (success or exception) of g's in-flight distribution; completion immediately followed, in the same event-loop "
                "iteration, by a new request for g; after the sequence every in-flight distribution is completed (drain)"]
-BOUNDS = {"quick": "(a) one step from every pre-state over 2 groups; (b) every sequence of 4 events over 2 groups", "thorough": "(b) 6 events"}
+BOUNDS = {"quick": "(a) one step from every pre-state over 2 groups; (b) every sequence of <= 6 events over 2 groups (4 with equal-content requests / overlapping groups)", "thorough": "(b) 7 events; 5 with equal-content requests / overlapping groups"}
 OUTSIDE = "more than 2 groups (disjoint, or overlapping {1,2}/{2,3}); the real component managers (C15); cancellation of the actor while requests are in flight"
 BUDGET = {"quick": 300, "thorough": 900}
 G = [frozenset({1}), frozenset({2})]
@@ -303,7 +303,9 @@ def instances(tier):
            I("seq-5", "make_seq", (5,), "every sequence of 5 events over 2 groups", budget_s=300, validate_every=1000),
            I("seq-4-dups", "make_seq", (4, False, True), "4 events; a request may have exactly the content of the request in flight for its group", budget_s=200, validate_every=200),
            I("seq-4-overlap", "make_seq", (4, False, False, True), "4 events over two overlapping but different groups {1,2} and {2,3}", budget_s=200, validate_every=200)]
+    out.append(I("seq-6", "make_seq", (6,), "every sequence of 6 events over 2 groups", budget_s=600, validate_every=5000))
     if tier != "quick":
-        out += [I("seq-6", "make_seq", (6,), "6 events", budget_s=900, validate_every=5000),
+        out += [I("seq-5-dups", "make_seq", (5, False, True), "5 events; equal-content requests", budget_s=600, validate_every=2000),
+                I("seq-5-overlap", "make_seq", (5, False, False, True), "5 events over two overlapping but different groups", budget_s=600, validate_every=2000),
                 I("seq-7", "make_seq", (7,), "7 events (budgeted)", budget_s=900, validate_every=20000, exhaustive=False)]
     return out
